@@ -45,7 +45,7 @@ CLASSES = ["ends", "interleaved", "aligned", "zero", "tight", "exceptions"]
 
 
 def plan(tier):
-    n = 250 if tier == "quick" else 20000
+    n = 2500 if tier == "quick" else 400000
     return [(c, n) for c in CLASSES]
 
 
